@@ -5,6 +5,7 @@ package main
 // back, does not move code out of the rule's sight.
 
 import (
+	"go/token"
 	"sort"
 
 	"golang.org/x/tools/go/ssa"
@@ -178,4 +179,168 @@ func runLoopVarAlias(c *Ctx, fns []*ssa.Function, rule string) {
 		}
 	}
 	c.Stats[rule+" loop variables examined for address escape"] = n
+}
+
+// valueLeaves follows a value backwards through everything that merely passes it along -- phis, local cells, captured
+// variables, parameters (to the arguments at every call site), fields of struct values that were built locally (to
+// what was stored into that field) -- and returns the values where that stops (calls, loads from heap objects,
+// constants, globals). It lets a rule ask "what is this, ultimately" without caring how many helpers, parameter
+// structs or temporaries it travelled through.
+func (c *Ctx) valueLeaves(v ssa.Value) []ssa.Value {
+	seen := map[ssa.Value]bool{}
+	var out []ssa.Value
+	var walk func(v ssa.Value, d int)
+	// fieldOf: the values field idx of struct-valued / struct-pointer-valued x can hold
+	var fieldOf func(x ssa.Value, idx int, d int) bool
+	fieldOf = func(x ssa.Value, idx int, d int) bool {
+		if d > 12 {
+			return false
+		}
+		switch y := x.(type) {
+		case *ssa.Alloc:
+			n := 0
+			for _, r := range *y.Referrers() {
+				switch z := r.(type) {
+				case *ssa.FieldAddr:
+					if z.Field == idx {
+						for _, r2 := range *z.Referrers() {
+							if st, ok := r2.(*ssa.Store); ok && st.Addr == ssa.Value(z) {
+								walk(st.Val, d+1)
+								n++
+							}
+						}
+					}
+				case *ssa.Store:
+					if z.Addr == ssa.Value(y) {
+						if fieldOf(z.Val, idx, d+1) {
+							n++
+						}
+					}
+				}
+			}
+			return n > 0
+		case *ssa.UnOp:
+			if y.Op == token.MUL {
+				return fieldOf(y.X, idx, d+1) // a copy of the struct another cell holds
+			}
+		case *ssa.Parameter:
+			callers := c.P.Callers(y.Parent())
+			pi := paramIndex(y)
+			if len(callers) == 0 || pi < 0 {
+				return false
+			}
+			ok := true
+			for _, e := range callers {
+				args := e.Site.Common().Args
+				if pi >= len(args) || !fieldOf(args[pi], idx, d+1) {
+					ok = false
+				}
+			}
+			return ok
+		case *ssa.Phi:
+			ok := true
+			for _, e := range y.Edges {
+				if !fieldOf(e, idx, d+1) {
+					ok = false
+				}
+			}
+			return ok
+		}
+		return false
+	}
+	walk = func(v ssa.Value, d int) {
+		if v == nil || seen[v] {
+			return
+		}
+		seen[v] = true
+		if d > 16 {
+			out = append(out, v)
+			return
+		}
+		switch x := v.(type) {
+		case *ssa.Phi:
+			for _, e := range x.Edges {
+				walk(e, d+1)
+			}
+		case *ssa.ChangeType:
+			walk(x.X, d+1)
+		case *ssa.MakeInterface:
+			walk(x.X, d+1)
+		case *ssa.Parameter:
+			callers := c.P.Callers(x.Parent())
+			pi := paramIndex(x)
+			if len(callers) == 0 || pi < 0 {
+				out = append(out, v)
+				return
+			}
+			for _, e := range callers {
+				args := e.Site.Common().Args
+				if pi < len(args) {
+					walk(args[pi], d+1)
+				} else {
+					out = append(out, v)
+				}
+			}
+		case *ssa.FreeVar:
+			fn := x.Parent()
+			idx := freeVarIndex(fn, x)
+			found := false
+			if par := fn.Parent(); par != nil {
+				for _, b := range par.Blocks {
+					for _, in := range b.Instrs {
+						if mc, ok := in.(*ssa.MakeClosure); ok && mc.Fn == ssa.Value(fn) && idx < len(mc.Bindings) {
+							walk(mc.Bindings[idx], d+1)
+							found = true
+						}
+					}
+				}
+			}
+			if !found {
+				out = append(out, v)
+			}
+		case *ssa.Field:
+			if !fieldOf(x.X, x.Field, d+1) {
+				out = append(out, v)
+			}
+		case *ssa.UnOp:
+			if x.Op != token.MUL {
+				out = append(out, v)
+				return
+			}
+			switch a := x.X.(type) {
+			case *ssa.Alloc:
+				n := 0
+				for _, sv := range cellStores(a) {
+					walk(sv, d+1)
+					n++
+				}
+				if n == 0 {
+					out = append(out, v)
+				}
+			case *ssa.FreeVar:
+				// the captured cell: what the enclosing function (and its other closures) store into it
+				walk(a, d+1)
+			case *ssa.FieldAddr:
+				if !fieldOf(a.X, a.Field, d+1) {
+					out = append(out, v)
+				}
+			default:
+				out = append(out, v)
+			}
+		case *ssa.Alloc:
+			// reached as the binding of a captured variable: the cell's contents
+			n := 0
+			for _, sv := range cellStores(x) {
+				walk(sv, d+1)
+				n++
+			}
+			if n == 0 {
+				out = append(out, v)
+			}
+		default:
+			out = append(out, v)
+		}
+	}
+	walk(v, 0)
+	return out
 }
